@@ -56,13 +56,16 @@ def boundary_texts():
         out.append("{if case=\"1\" false=\"{var:b}\" true=\"" + "{var:a}" * n + "\"}")
     for d in (254, 255, 256, 257):
         out.append("<if case=\"1\">" * d + "<loop value=\"v\">{var:v}</loop>" + "</if>" * d)
-    out += ["{if case=\"1\" true=\"{var:a}<loop></loop>\"}", "{if case=\"1\" true=\"{var:a}<if case=\"1\"></if>\"}",
+    out += ["{ifcase=}<if<loop>}<else{var:1}", "{svar:a, <if case=\"1\"><loop value=\"v\">}<else{var:v}", "{if case=\"1\" true=\"<if case=\"1\"><loop value=\"v\">}<else{var:v}",
+            "{if case=\"1\" true=\"{var:a}<loop></loop>\"}", "{if case=\"1\" true=\"{var:a}<if case=\"1\"></if>\"}",
             "{svar:a, <loop value=\"v\">}{var:v}</loop>", "<if case=\"1\">{svar:a, <loop value=\"v\">}<else", "<if>", "<if >x</if>", "<if case>x</if>",
             "<if case=\"1\">a<else>b<else>c</if>", "<if case=\"1\">a<elseif case=\"0\">b</if>", "<if case=\"1\">a<else if>b</if>", "<if case=\"1\">a<else",
             "<if case=\"1\">a<else i", "<if case=\"1\">a<else if case=\"1", "<loop set=\"a\" \"b\" value='v' sort=\"ascend\" sort=\"d\">{var:v}</loop>",
             "<loop s se so v g =\"x\">y</loop>", "<loop value=\"v\"></loop></loop>", "{if case=\"{var:a}\" true=\"{var:b}\" false=\"{math:1+{var:c}}\"}",
             "{if case=\"1\" t true=\"a\" f false=\"b\"}", "{if case=\"1\" true=\"a\" fals=\"b\"}", "{if case=\"1\" true=a}", "{if case='1' true='}' false='x'}",
             "{if case=\"1\" true=\"}\" false=\"{var:x}\"}", "{math:(1+2)*{var:a}==3&&(4>=2)||!1}", "{math:  ( ( 1 ) ) }", "{math:a==b}", "{math:1 == abc}", "{math:-1}",
+            "{if case=\"0\" true=\"a{var:x}\"" + " " * 65526 + "false=\"bbbbbbbbbb\"}", "{if case=\"1\" true=\"a{var:x}\"" + " " * 65500 + "false=\"b\"}",
+            "{if case=\"1\" true=\"" + "t" * 65510 + "\" false=\"{var:b}\"}", "{if case=\"" + "1" * 65536 + "\" true=\"{var:b}\"}",
             "{math:1 - -1}", "{math:{var:a}-1}", "{math:0x1F+1e3+1.5e-2}", "{math:(}", "{math:()}", "{math:(1)(2)}", "{math:{var:a}", "{math:{var:}"]
     return out
 
@@ -120,7 +123,13 @@ def run_texts(exe, mexe, texts):
     model, _ = vlib.run_sharded(mexe, [], lines, timeout=3600)
     out = []
     for (w, t, c), i, m in zip(texts, impl, model):
-        out.append((w, t, c, i, m.rsplit(" ", 1)[0]))
+        if i == "":
+            i = "CRASH (no output: sanitizer abort)"
+        parts = m.rsplit(" ", 1)
+        mt = parts[0]
+        if len(parts) == 2 and parts[1] == "0" and not mt.startswith("ERR"):
+            mt = "BADTREE:" + mt          # the model's tree violates the tree specification (tree_okb)
+        out.append((w, t, c, i, mt))
     return out
 
 
